@@ -2886,20 +2886,24 @@ pub mod verif {
     use super::*;
 
     // ---- opaque state constructors / accessors --------------------------------
+    /// Public newtypes around the private sample / table types.
+    pub struct VSample(SampleInfo);
+    pub struct VTables(SampleTables);
+
     pub fn mk_sample(
         pts: u64,
         dts: u64,
         data: Vec<u8>,
         is_keyframe: bool,
         duration: Option<u32>,
-    ) -> SampleInfo {
-        SampleInfo {
+    ) -> VSample {
+        VSample(SampleInfo {
             pts,
             dts,
             data,
             is_keyframe,
             duration,
-        }
+        })
     }
 
     pub fn mk_tables(
@@ -2910,8 +2914,8 @@ pub mod verif {
         samples_per_chunk: u32,
         cts_offsets: Vec<i32>,
         has_bframes: bool,
-    ) -> SampleTables {
-        SampleTables {
+    ) -> VTables {
+        VTables(SampleTables {
             durations,
             sizes,
             keyframes,
@@ -2919,41 +2923,52 @@ pub mod verif {
             samples_per_chunk,
             cts_offsets,
             has_bframes,
-        }
+        })
     }
 
-    pub fn tables_from_samples(
-        samples: &[SampleInfo],
+    /// `SampleTables::from_samples` over exactly N samples (moved into a vector of
+    /// capacity N, no reallocation).
+    pub fn tables_from_samples<const N: usize>(
+        samples: [VSample; N],
         chunk_offsets: Vec<u32>,
         samples_per_chunk: u32,
         fallback_duration: Option<u32>,
-    ) -> SampleTables {
-        SampleTables::from_samples(samples, chunk_offsets, samples_per_chunk, fallback_duration)
+    ) -> VTables {
+        let mut v = Vec::with_capacity(N);
+        for s in samples {
+            v.push(s.0);
+        }
+        VTables(SampleTables::from_samples(
+            &v,
+            chunk_offsets,
+            samples_per_chunk,
+            fallback_duration,
+        ))
     }
 
-    pub fn t_durations(t: &SampleTables) -> &[u32] {
-        &t.durations
+    pub fn t_durations(t: &VTables) -> &[u32] {
+        &t.0.durations
     }
-    pub fn t_sizes(t: &SampleTables) -> &[u32] {
-        &t.sizes
+    pub fn t_sizes(t: &VTables) -> &[u32] {
+        &t.0.sizes
     }
-    pub fn t_keyframes(t: &SampleTables) -> &[u32] {
-        &t.keyframes
+    pub fn t_keyframes(t: &VTables) -> &[u32] {
+        &t.0.keyframes
     }
-    pub fn t_chunk_offsets(t: &SampleTables) -> &[u32] {
-        &t.chunk_offsets
+    pub fn t_chunk_offsets(t: &VTables) -> &[u32] {
+        &t.0.chunk_offsets
     }
-    pub fn t_samples_per_chunk(t: &SampleTables) -> u32 {
-        t.samples_per_chunk
+    pub fn t_samples_per_chunk(t: &VTables) -> u32 {
+        t.0.samples_per_chunk
     }
-    pub fn t_cts_offsets(t: &SampleTables) -> &[i32] {
-        &t.cts_offsets
+    pub fn t_cts_offsets(t: &VTables) -> &[i32] {
+        &t.0.cts_offsets
     }
-    pub fn t_has_bframes(t: &SampleTables) -> bool {
-        t.has_bframes
+    pub fn t_has_bframes(t: &VTables) -> bool {
+        t.0.has_bframes
     }
-    pub fn t_total_duration(t: &SampleTables) -> u64 {
-        t.total_duration()
+    pub fn t_total_duration(t: &VTables) -> u64 {
+        t.0.total_duration()
     }
 
     /// Writer state built without reallocation: exactly NV / NA pushes into
@@ -2961,9 +2976,9 @@ pub mod verif {
     pub fn writer_with_state<W: Write, const NV: usize, const NA: usize>(
         sink: W,
         video_codec: VideoCodec,
-        video: [SampleInfo; NV],
+        video: [VSample; NV],
         audio_track: Option<Mp4AudioTrack>,
-        audio: [SampleInfo; NA],
+        audio: [VSample; NA],
         video_prev_pts: Option<u64>,
         video_last_delta: Option<u32>,
         audio_prev_pts: Option<u64>,
@@ -2974,11 +2989,11 @@ pub mod verif {
     ) -> Mp4Writer<W> {
         let mut video_samples = Vec::with_capacity(NV);
         for s in video {
-            video_samples.push(s);
+            video_samples.push(s.0);
         }
         let mut audio_samples = Vec::with_capacity(NA);
         for s in audio {
-            audio_samples.push(s);
+            audio_samples.push(s.0);
         }
         Mp4Writer {
             writer: sink,
@@ -3203,35 +3218,41 @@ pub mod verif {
     }
     pub fn build_moov_box(
         video: &Mp4VideoTrack,
-        video_tables: &SampleTables,
-        audio: Option<(&Mp4AudioTrack, &SampleTables)>,
+        video_tables: &VTables,
+        audio: Option<(&Mp4AudioTrack, &VTables)>,
         video_config: &VideoConfig,
         metadata: Option<&Metadata>,
     ) -> Vec<u8> {
-        super::build_moov_box(video, video_tables, audio, video_config, metadata)
+        super::build_moov_box(
+            video,
+            &video_tables.0,
+            audio.map(|(a, t)| (a, &t.0)),
+            video_config,
+            metadata,
+        )
     }
     pub fn build_audio_trak_box(
         audio: &Mp4AudioTrack,
-        tables: &SampleTables,
+        tables: &VTables,
         metadata: Option<&Metadata>,
     ) -> Vec<u8> {
-        super::build_audio_trak_box(audio, tables, metadata)
+        super::build_audio_trak_box(audio, &tables.0, metadata)
     }
     pub fn build_audio_tkhd_box() -> Vec<u8> {
         super::build_audio_tkhd_box()
     }
     pub fn build_audio_mdia_box(
         audio: &Mp4AudioTrack,
-        tables: &SampleTables,
+        tables: &VTables,
         metadata: Option<&Metadata>,
     ) -> Vec<u8> {
-        super::build_audio_mdia_box(audio, tables, metadata)
+        super::build_audio_mdia_box(audio, &tables.0, metadata)
     }
-    pub fn build_audio_minf_box(audio: &Mp4AudioTrack, tables: &SampleTables) -> Vec<u8> {
-        super::build_audio_minf_box(audio, tables)
+    pub fn build_audio_minf_box(audio: &Mp4AudioTrack, tables: &VTables) -> Vec<u8> {
+        super::build_audio_minf_box(audio, &tables.0)
     }
-    pub fn build_audio_stbl_box(audio: &Mp4AudioTrack, tables: &SampleTables) -> Vec<u8> {
-        super::build_audio_stbl_box(audio, tables)
+    pub fn build_audio_stbl_box(audio: &Mp4AudioTrack, tables: &VTables) -> Vec<u8> {
+        super::build_audio_stbl_box(audio, &tables.0)
     }
     pub fn build_audio_stsd_box(audio: &Mp4AudioTrack) -> Vec<u8> {
         super::build_audio_stsd_box(audio)
@@ -3253,33 +3274,33 @@ pub mod verif {
     }
     pub fn build_trak_box(
         video: &Mp4VideoTrack,
-        tables: &SampleTables,
+        tables: &VTables,
         video_config: &VideoConfig,
         metadata: Option<&Metadata>,
     ) -> Vec<u8> {
-        super::build_trak_box(video, tables, video_config, metadata)
+        super::build_trak_box(video, &tables.0, video_config, metadata)
     }
     pub fn build_mdia_box(
         video: &Mp4VideoTrack,
-        tables: &SampleTables,
+        tables: &VTables,
         video_config: &VideoConfig,
         metadata: Option<&Metadata>,
     ) -> Vec<u8> {
-        super::build_mdia_box(video, tables, video_config, metadata)
+        super::build_mdia_box(video, &tables.0, video_config, metadata)
     }
     pub fn build_minf_box(
         video: &Mp4VideoTrack,
-        tables: &SampleTables,
+        tables: &VTables,
         video_config: &VideoConfig,
     ) -> Vec<u8> {
-        super::build_minf_box(video, tables, video_config)
+        super::build_minf_box(video, &tables.0, video_config)
     }
     pub fn build_stbl_box(
         video: &Mp4VideoTrack,
-        tables: &SampleTables,
+        tables: &VTables,
         video_config: &VideoConfig,
     ) -> Vec<u8> {
-        super::build_stbl_box(video, tables, video_config)
+        super::build_stbl_box(video, &tables.0, video_config)
     }
     pub fn build_stsd_box(video: &Mp4VideoTrack, video_config: &VideoConfig) -> Vec<u8> {
         super::build_stsd_box(video, video_config)
